@@ -31,7 +31,7 @@ MANIFEST = {
             'from MIR, the table is located in its WHATWG index by its contents, and every pointer of every segment must hold the BMP code point its '
             'table value denotes (a segment that reaches into supplementary-plane or multi-code-point entries would make an unrelated character '
             'encodable in that configuration only; completeness of the segments is exercised by the existing all-pointer tests and not decided here). '
-            '(R-ENDIAN) every code unit the UTF-16LE/BE decoders read from the unaligned byte source (UnalignedU16Slice::at / simd_at) reaches its uses only through the endianness adapter: swap_if_opposite_endian, or simd_byte_swap / swap_bytes on the E::OPPOSITE_ENDIAN branch and unswapped on the other (every region path of every reading body).',
+            '(R-ENDIAN) every code unit the UTF-16LE/BE decoders read from the unaligned byte source (UnalignedU16Slice::at / simd_at) reaches its uses only through the endianness adapter: swap_if_opposite_endian, or simd_byte_swap / swap_bytes on the E::OPPOSITE_ENDIAN branch and unswapped on the other (every region path of every reading body). (R-SURR, kernel) the cfg-selected alternatives of UnalignedU16Slice::copy_bmp_to stop at exactly D800-DFFF in every configuration. (C17-D5.astral) in the configurations that scan BIG5_LOW_BITS element-wise, a returning path on which BIG5_LOW_BITS[i] == x holds has tested big5_is_astral(i) at the same index (the table keeps only the low 16 bits).',
     'note': 'Trusted: rustc const evaluation, mirx, rule library, tests/test_data/*_in.txt + *_in_ref.txt as copies of the WHATWG indexes, the Standard\'s index-pointer rules as transcribed here.',
     'technique': 'exhaustive data-vs-data agreement over const-evaluated statics per feature configuration + sibling comparison of extracted classes + per-family must-pass-through / accounting rules on the iterator kernels and abstract interpretation of the scalar automata',
 }
